@@ -61,10 +61,10 @@ Proof.
         intros Ha. rewrite (check_permission_admin _ _ _ Ha) in Hcp. discriminate Hcp.
     + destruct (pi_is_last pi1); cbn [sr_parent sr_child sr_err];
         (split; [intros p [= <-]; exact Hpd|]); (split; [try discriminate; intros c0 _ [= <-]; congruence|reflexivity]).
-    + cbv zeta. destruct (Nat.ltb slCountMax (S sl)).
-      { cbn [sr_parent sr_child sr_err]. split; [intros p [= <-]; exact Hpd|]. split; [discriminate|reflexivity]. }
-      destruct (pi_is_last pi1 && slmode_eqb slm SlLstat).
+    + cbv zeta. destruct (pi_is_last pi1 && slmode_eqb slm SlLstat).
       { cbn [sr_parent sr_child sr_err]. split; [intros p [= <-]; exact Hpd|]. split; [intros c0 _ [= <-]; congruence|reflexivity]. }
+      destruct (Nat.ltb slCountMax (S sl)).
+      { cbn [sr_parent sr_child sr_err]. split; [intros p [= <-]; exact Hpd|]. split; [discriminate|reflexivity]. }
       destruct (pi_replace_part (v_os v) pi1 t) as [reset pi2].
       apply IH; [exact Hvd|]. destruct reset; assumption.
     + cbn [sr_parent sr_child sr_err]. split; [intros p [= <-]; exact Hpd|]. split; [discriminate|reflexivity].
